@@ -14,10 +14,11 @@ theorem nthPrint_eq (i : Int) : nthPrint i = 91 :: (fmtInt i ++ [93]) := rfl
 
 /-! ## what follows a fragment, and token children -/
 
-/-- the text after a fragment inside a printed expression: nothing, a dot or a bracket -/
+/-- the text after a fragment inside a printed expression: nothing, a dot or a bracket — or, where the
+expression is an operand of an equation, what follows it there: a space, `)`, `,`, `]` -/
 def followerOK : Bytes → Bool
   | [] => true
-  | b :: _ => b == 46 || b == 91
+  | b :: _ => b == 46 || b == 91 || b == 32 || b == 41 || b == 44 || b == 93
 
 def tokTwo (b : UInt8) : Bool := tokCls b == 46 || tokCls b == 111
 theorem tokCls_two (b : UInt8) : tokCls b = 46 ∨ tokCls b = 111 := by
@@ -41,9 +42,7 @@ theorem takeTok_token (k tail : Bytes) (hk : ∀ c ∈ k, tokCls c ≠ 46) (ht :
     | cons b t =>
       simp only [followerOK, Bool.or_eq_true, beq_iff_eq] at ht
       have : tokCls b = 46 := by
-        rcases ht with h | h <;> subst h
-        · exact tokCls_specials.2.2.1
-        · exact tokCls_specials.2.2.2.2.1
+        rcases ht with ((((h | h) | h) | h) | h) | h <;> subst h <;> decide +kernel
       simp [takeTok, this]
   | cons c k ih =>
     have hc := hk c (by simp)
